@@ -1,3 +1,80 @@
-LEVEL = 'other'
-EXPLANATION = 'C11 (under construction)'
-EXTRA = []
+"""C11 - what is recorded never changes what is computed."""
+import time
+
+from contracts.integrate_rt import rt_integrate  # noqa: F401
+
+LEVEL = 'proof'
+EXPLANATION = ('_integrate loop under contract with a dependency (non-interference) clause: the physics variables '
+               '(range_vector, velocity_vector, time, wind_vector, wind-sock position) at the end of every iteration are '
+               'functions of their values at the loop head and of the shot/calculator only - never of data_filter, ranges, '
+               'record_step, time_step (dep obligations: two-run product of the loop body with the recording state havocked '
+               'independently, for filter_flags 0 and 31); the step clauses give the same update whatever is recorded. '
+               '_TrajectoryDataFilter.should_record under contract for every filter state: a range row lies exactly at the '
+               'record distance, is interpolated with ONE ratio in [0,1] between the previous and the current integration '
+               'state (so it is a function of those two states and the record distance only); other rows are the current '
+               'state; the flag word is the union of what was raised, so extra-data output = plain rows + flagged rows. The '
+               'loop bound depends on the requested range only through the exit test (post-condition).')
+TEXT = ('per-step non-interference and the row-construction contracts are proved; the whole-trajectory corollary (same row at '
+        'the same distance for two different requests) is their induction over the steps and is exercised by a bounded '
+        'stand-in; recorded finding D16 (step > range: terminal row) is listed under C03')
+NOT_DECIDED = ['the induction over steps that turns per-step non-interference into equality of whole result lists is on paper '
+               '(DESIGN.md 5, C11); bounded stand-in compares requests',
+               'the float drift of the accumulated record distance between different steps (A-REAL): rows agree to rounding, '
+               'bounded']
+EXTRA = ['bounded_request_independence', 'rt_integrate']
+
+
+def bounded_request_independence(tier, seed):
+    import random
+    from pyvc.bounded import pkg, std_shot, mk
+    from pyvc.scan import result
+    P = pkg()
+    rng = random.Random(1100 + seed)
+    t0 = time.time()
+    bad = None
+    cases = 0
+
+    def key(r):
+        return round(r.distance >> P.Unit.Foot, 6)
+
+    def vals(r):
+        return [r.time, r.velocity >> P.Unit.FPS, r.height >> P.Unit.Foot, r.windage >> P.Unit.Foot, r.mach,
+                r.energy >> P.Unit.FootPound, r.angle >> P.Unit.Radian]
+
+    def same(a, b):
+        return all(abs(x - y) <= 1e-9 * max(1.0, abs(x), abs(y)) for x, y in zip(vals(a), vals(b)))
+    for k in range(3 if tier == 'quick' else 12):
+        shot = std_shot(P, rng, look_deg=rng.choice([0.0, 3.0]), winds=[P.Wind(P.Unit.MPH(rng.uniform(0, 15)), P.Unit.Degree(rng.uniform(0, 360)))])
+        calc = P.Calculator()
+        calc.set_weapon_zero(shot, P.Unit.Yard(100))
+        base = calc.fire(shot, P.Unit.Yard(600), P.Unit.Yard(50)).trajectory
+        idx = {key(r): r for r in base}
+        variants = {
+            'shorter range': calc.fire(shot, P.Unit.Yard(300), P.Unit.Yard(50)).trajectory,
+            'coarser step': calc.fire(shot, P.Unit.Yard(600), P.Unit.Yard(150)).trajectory,
+            'finer step': calc.fire(shot, P.Unit.Yard(600), P.Unit.Yard(25)).trajectory,
+            'time step': calc.fire(shot, P.Unit.Yard(600), P.Unit.Yard(50), time_step=0.05).trajectory,
+            'extra data': calc.fire(shot, P.Unit.Yard(600), P.Unit.Yard(50), extra_data=True).trajectory,
+        }
+        for name, tr in variants.items():
+            cases += 1
+            got = {key(r): r for r in tr}
+            common = [d for d in idx if d in got]
+            if name in ('shorter range',) and not all(d in idx for d in got):
+                bad = f'{name}: a row of the shorter request is missing from the longer one'
+            if name == 'coarser step' and not all(d in idx for d in got):
+                bad = f'{name}: a row of the coarser request is missing from the finer one'
+            if name in ('finer step', 'extra data') and not all(d in got for d in idx):
+                bad = f'{name}: a row of the plain request is missing from the richer one'
+            if name == 'extra data':
+                extra_rows = [r for r in tr if key(r) not in idx]
+                if any(r.flag & ~P.TrajFlag.RANGE == 0 for r in extra_rows):
+                    bad = f'{name}: an additional row carries no event flag'
+            if len(common) < 3:
+                bad = f'{name}: fewer than 3 common rows (check broken?)'
+            for d in common:
+                if not same(idx[d], got[d]):
+                    bad = f'{name}: row at {d} ft differs: {vals(idx[d])} vs {vals(got[d])}'
+    return result('bounded:request-independence', [mk('same-row-at-the-same-distance-whatever-the-request', bad is None,
+                  'rows at common distances agree to 1e-9 relative across shorter range / coarser / finer step / time step / '
+                  'extra data; subset relations; extra rows are flagged', cases, t0, bad)], t0, props=('C11',))
